@@ -229,9 +229,9 @@ def main(argv) -> int:
                 chk.merge(job.result())
             except Exception as err:
                 chk.harness_error(f"worker failed: {err!r}")
-    chk.require_min("descend_compared", chk.pick(1000, 30000))
-    chk.require_min("dispatches_checked", chk.pick(4000, 100000))
-    chk.require_min("over_or_empty_checked", chk.pick(100, 3000))
-    chk.require_min("or_default_checked", chk.pick(20, 500))
+    chk.require_min("descend_compared", chk.pick(1000, 10000))
+    chk.require_min("dispatches_checked", chk.pick(4000, 30000))
+    chk.require_min("over_or_empty_checked", chk.pick(100, 1000))
+    chk.require_min("or_default_checked", chk.pick(20, 200))
     chk.assume("X_or_default methods are implementation-specific: the snippet is the reference body written in the meta-model, renamed with the repo's naming functions")
     return chk.finish()
